@@ -361,6 +361,8 @@ type mockClient struct {
 	stalled atomic.Int64       // streams that reached their stall with everything sent dealt with
 	active  atomic.Int64       // streams opened and neither finished nor parked in their stall
 	nOpen   atomic.Int64       // SyncChain calls so far
+	parked  atomic.Int64       // streams currently parked in their stall
+	gen     atomic.Int64       // bumped by reset: streams of earlier ops no longer count as parked
 	stored  *atomic.Int64      // successful base-store Puts of the node under test
 	cancel  context.CancelFunc // cancels the context of the running Sync (what Run does to a stuck sync)
 	wg      sync.WaitGroup
@@ -369,6 +371,7 @@ type mockClient struct {
 func (m *mockClient) reset(scripts map[string][]string, upTo uint64, cancel context.CancelFunc) {
 	m.mu.Lock()
 	defer m.mu.Unlock()
+
 	m.scripts, m.nCalls, m.calls, m.upTo, m.cancel, m.upToReq = scripts, map[string]int{}, nil, upTo, cancel, false
 }
 
@@ -397,7 +400,8 @@ func (m *mockClient) SyncChain(ctx context.Context, p net.Peer, in *drand.SyncRe
 			script = ss[len(ss)-1]
 		}
 	}
-	m.nOpen.Add(1)
+	myGen := m.nOpen.Add(1) // the id of this stream; only the latest stream counts as "parked"
+	m.parked.Store(0)
 	if script == "err" {
 		return nil, errors.New("verif: scripted dial error")
 	}
@@ -435,9 +439,16 @@ func (m *mockClient) SyncChain(ctx context.Context, p net.Peer, in *drand.SyncRe
 							m.stalled.Add(1)
 							parked = true
 							m.active.Add(-1)
-						} else {
-							cancel()
+							if m.nOpen.Load() == myGen {
+								m.parked.Store(1)
+							}
+							<-ctx.Done()
+							if m.nOpen.Load() == myGen {
+								m.parked.Store(0)
+							}
+							return
 						}
+						cancel()
 						<-ctx.Done()
 						return
 					}
@@ -787,6 +798,17 @@ func (b *logBuf) waitFor(from int, pred func(string) bool, d time.Duration) int 
 	}
 	return -1
 }
+func (b *logBuf) count(pred func(string) bool) int {
+	c := 0
+	b.mu.Lock()
+	for _, l := range b.lines {
+		if pred(l) {
+			c++
+		}
+	}
+	b.mu.Unlock()
+	return c
+}
 func (b *logBuf) waitCount(pred func(string) bool, n int, d time.Duration) bool {
 	deadline := time.Now().Add(d)
 	for time.Now().Before(deadline) {
@@ -900,12 +922,18 @@ func syncEngine(args []string, in *bufio.Scanner, out *bufio.Writer) {
 				sec, _ := strconv.Atoi(f[1])
 				runClock.Advance(time.Duration(sec) * time.Second)
 				return "ok"
-			case "settle": // wait until every opened stream ended or is parked in its stall and Run consumed the beacons reported
+			case "settle": // wait until the node is quiescent: every opened stream ended or is parked in its stall, Run consumed
+				// the beacons reported, and every sync Run started has either logged its end or is the one parked
+				endedPred := func(l string) bool {
+					return strings.Contains(l, "sync was unsuccessful") || strings.Contains(l, "sync completed successfully")
+				}
 				deadline := time.Now().Add(5 * time.Second)
 				for time.Now().Before(deadline) {
-					if s.cl.active.Load() == 0 && len(s.sm.VerifSyncedChan()) == 0 {
+					ended := runLog.count(endedPred)
+					if s.cl.active.Load() == 0 && len(s.sm.VerifSyncedChan()) == 0 &&
+						(ended == runStarts || (ended == runStarts-1 && s.cl.parked.Load() >= 1)) {
 						l, _ := s.top.Last(s.ctx)
-						return fmt.Sprintf("ok stored=%d head=%d", s.base.n.Load(), l.Round)
+						return fmt.Sprintf("ok stored=%d head=%d ended=%d", s.base.n.Load(), l.Round, ended)
 					}
 					time.Sleep(200 * time.Microsecond)
 				}
@@ -934,7 +962,6 @@ func syncEngine(args []string, in *bufio.Scanner, out *bufio.Writer) {
 						dec = "start"
 					}
 				}
-				ended := ""
 				if dec == "start" {
 					runStarts++
 					// the new Sync goroutine has asked its first peer
@@ -945,18 +972,8 @@ func syncEngine(args []string, in *bufio.Scanner, out *bufio.Writer) {
 					if s.cl.nOpen.Load() == opened {
 						return "hang-start"
 					}
-					if f[2] == "end" {
-						n := runStarts
-						ok := runLog.waitCount(func(l string) bool {
-							return strings.Contains(l, "sync was unsuccessful") || strings.Contains(l, "sync completed successfully")
-						}, n, 5*time.Second)
-						if !ok {
-							return "hang-end"
-						}
-						ended = " ended"
-					}
 				}
-				return dec + ended
+				return dec
 			case "check":
 				l, err := s.sm.CheckPastBeacons(s.ctx, parseU(f[1]), nil)
 				if err != nil {
